@@ -326,7 +326,7 @@ class GeoPolygon(PolygonBase, SimpleShapeMixin):
     def bounds(self) -> Tuple[float, float, float, float]:
         lons, lats = cast(
             Tuple[List[float], List[float]],
-            zip(*[y.to_float() for y in self.outline])
+            zip(*[y.to_float()[:2] for y in self.outline])
         )
         return min(lons), min(lats), max(lons), max(lats)
 
@@ -1212,7 +1212,7 @@ class GeoRing(PolygonBase):
 
         lons, lats = cast(
             Tuple[List[float], List[float]],
-            zip(*[y.to_float() for y in self.bounding_coords()])
+            zip(*[y.to_float()[:2] for y in self.bounding_coords()])
         )
         return min(lons), min(lats), max(lons), max(lats)
 
@@ -1391,7 +1391,7 @@ class GeoLineString(SingleShapeBase, LineLikeMixin, SimpleShapeMixin):
     def bounds(self) -> Tuple[float, float, float, float]:
         lons, lats = cast(
             Tuple[List[float], List[float]],
-            zip(*[y.to_float() for y in self.vertices])
+            zip(*[y.to_float()[:2] for y in self.vertices])
         )
         return min(lons), min(lats), max(lons), max(lats)
 
@@ -1399,7 +1399,7 @@ class GeoLineString(SingleShapeBase, LineLikeMixin, SimpleShapeMixin):
     def centroid(self) -> Coordinate:
         lon, lat = [
             round_half_up(statistics.mean(x), 7)
-            for x in zip(*[y.to_float() for y in self.vertices])
+            for x in zip(*[y.to_float()[:2] for y in self.vertices])
         ]
         return Coordinate(lon, lat)
 
@@ -1421,7 +1421,7 @@ class GeoLineString(SingleShapeBase, LineLikeMixin, SimpleShapeMixin):
         return GeoCircle(centroid, max_dist, dt=self.dt)
 
     def circumscribing_rectangle(self) -> GeoBox:
-        lons, lats = zip(*[y.to_float() for y in self.vertices])
+        lons, lats = zip(*[y.to_float()[:2] for y in self.vertices])
         return GeoBox(
             Coordinate(min(lons), max(lats)),
             Coordinate(max(lons), min(lats)),
